@@ -14,6 +14,11 @@
    [hr h p]; the entities a collection sees are those present in ITS store ([view]), because
    getFieldBucket and LinkedSetSymbol.AddLink go through field.GetStore().GetEntityBucket.
 
+   Which collections exist is part of the topology ([kinds]): for pair p its two stores register a
+   LinkCollection ([has_plain]), a RefCountedLinkCollection ([has_rc]), both or neither.  A store may
+   therefore own only ref-counted collections (store.links empty), only plain ones, both, several of one
+   kind, or none.  An operation of a collection that was not registered is refused.
+
    Every link / count operation is the operation of LinkMachine.v on the view of its pair.  Create
    and delete are the hierarchy-aware operations of boltz/store_crud.go:
      Create through store (sd, lv): error when the id is present in that store or in its parent store;
@@ -22,7 +27,8 @@
        entity up (not found error), then for every child store strategy, in registration order,
        processDeleteConstraints of the child: its FindById (an Extended child finds every entity of
        the parent, getEntityBucketForLoad) and, when found, cleanupLinks of THAT child store - every
-       link collection, then every ref-counted link collection, EntityDeleted; then
+       link collection the store registered (range store.links), then every ref-counted link collection
+       it registered (range store.refCountedLinks; two independent loops), EntityDeleted; then
        processDeleteConstraints of the root store itself (cleanupLinks of the root store); then
        DeleteEntity removes the root bucket with everything below it (all child sub-buckets, all link
        and count buckets of every level).
@@ -36,7 +42,9 @@ Local Open Scope nat_scope.
 
 Record topo := mkTopo {
   kids : side -> list bool;      (* child stores of the root store of a side; true = Extended() *)
-  pairs : list (nat * nat) }.    (* pair p : (level of its store in family A, level in family B) *)
+  pairs : list (nat * nat);      (* pair p : (level of its store in family A, level in family B) *)
+  kinds : list (bool * bool) }.  (* pair p : (its two stores register a LinkCollection for it, ... a
+                                    RefCountedLinkCollection for it); a missing entry = both *)
 
 Definition nkids (T : topo) (sd : side) : nat := length (kids T sd).
 Definition npairs (T : topo) : nat := length (pairs T).
@@ -45,6 +53,13 @@ Definition lvl (T : topo) (p : nat) (sd : side) : nat :=
 Definition is_ext (T : topo) (sd : side) (k : nat) : bool :=
   match k with O => false | S j => nth j (kids T sd) false end.
 Definition level_ok (T : topo) (sd : side) (k : nat) : bool := k <=? nkids T sd.
+
+(* which kinds of collection the two stores of pair p register for it (store.links /
+   store.refCountedLinks of BOTH stores: AddLinkCollection / AddRefCountedLinkCollection are called
+   on both sides or on neither).  A store may thus own only plain collections, only ref-counted
+   ones, both, several of one kind, or none. *)
+Definition has_plain (T : topo) (p : nat) : bool := fst (nth p (kinds T) (true, true)).
+Definition has_rc (T : topo) (p : nat) : bool := snd (nth p (kinds T) (true, true)).
 
 (* presence per store, and per pair the link and the count buckets of the entities of both sides *)
 Record hstate := mkHS {
@@ -95,10 +110,18 @@ Definition hcreate (T : topo) (sd : side) (lv : nat) (x : id) (h : hstate) : hre
 Definition store_pairs (T : topo) (sd : side) (k : nat) : list nat :=
   filter (fun p => lvl T p sd =? k) (seq 0 (npairs T)).
 
-(* cleanupLinks of store (sd, k): every link collection, then every ref-counted link collection *)
+(* store.links / store.refCountedLinks of store (sd, k) *)
+Definition link_pairs (T : topo) (sd : side) (k : nat) : list nat := filter (has_plain T) (store_pairs T sd k).
+Definition rc_pairs (T : topo) (sd : side) (k : nat) : list nat := filter (has_rc T) (store_pairs T sd k).
+(* every collection the store owns *)
+Definition owned (T : topo) (sd : side) (k : nat) : list nat := link_pairs T sd k ++ rc_pairs T sd k.
+
+(* cleanupLinks of store (sd, k): `for _, val := range store.links` EntityDeleted, then
+   `for _, val := range store.refCountedLinks` EntityDeleted - two independent loops: a store without
+   plain collections still runs the second one *)
 Definition cleanup_links (T : topo) (U : univ) (sd : side) (k : nat) (x : id) (h : hstate) : hres :=
-  hbind (hfold (cell_apply T (entity_deleted U sd x)) (store_pairs T sd k) h)
-        (hfold (cell_apply T (rc_entity_deleted U sd x)) (store_pairs T sd k)).
+  hbind (hfold (cell_apply T (entity_deleted U sd x)) (link_pairs T sd k) h)
+        (hfold (cell_apply T (rc_entity_deleted U sd x)) (rc_pairs T sd k)).
 
 (* FindById of child store k in processDeleteConstraints *)
 Definition child_found (T : topo) (h : hstate) (sd : side) (k : nat) (x : id) : bool :=
@@ -130,7 +153,7 @@ Definition hdelete (T : topo) (U : univ) (sd : side) (lv : nat) (x : id) (h : hs
 (* an Extended child store that owns a collection refuses the delete of an entity it has no data for *)
 Definition ext_blocked (T : topo) (h : hstate) (sd : side) (x : id) : bool :=
   existsb (fun k => is_ext T sd k && negb (hp h sd k x) &&
-                    match store_pairs T sd k with [] => false | _ => true end)
+                    match owned T sd k with [] => false | _ => true end)
           (seq 1 (nkids T sd)).
 
 (* ---- operations, transactions, histories --------------------------------------------------------- *)
@@ -142,12 +165,17 @@ Inductive hop :=
 
 Definition is_link_op (o : op) : bool :=
   match o with OCreate _ _ | ODelete _ _ => false | _ => true end.
+Definition is_rc_op (o : op) : bool :=
+  match o with OIncr _ _ _ | ODecr _ _ _ | OSetCount _ _ _ _ => true | _ => false end.
+(* the collection the operation is a method of exists (was registered) for pair p *)
+Definition op_registered (T : topo) (p : nat) (o : op) : bool :=
+  if is_rc_op o then has_rc T p else has_plain T p.
 
 Definition hstep (T : topo) (U : univ) (o : hop) (h : hstate) : hres :=
   match o with
   | HCreate sd lv x => hcreate T sd lv x h
   | HDelete sd lv x => hdelete T U sd lv x h
-  | HLink p o => if (p <? npairs T) && is_link_op o then cell_apply T (step U o) p h else HFailed
+  | HLink p o => if (p <? npairs T) && is_link_op o && op_registered T p o then cell_apply T (step U o) p h else HFailed
   end.
 
 Fixpoint run_hops (T : topo) (U : univ) (ops : list hop) (h : hstate) : hres :=
@@ -195,7 +223,7 @@ Definition htx_bound (M : Z) (ops : list hop) : Z := fold_left hop_bound ops M.
 Definition hhist_bound (M : Z) (hs : hhistory) : Z := fold_left htx_bound hs M.
 
 (* the flat machine of LinkMachine.v is the hierarchy without child stores and with one pair *)
-Definition flat_topo : topo := mkTopo (fun _ => []) [(0, 0)].
+Definition flat_topo : topo := mkTopo (fun _ => []) [(0, 0)] [(true, true)].
 Definition embed_op (o : op) : hop :=
   match o with
   | OCreate sd x => HCreate sd 0 x
